@@ -30,6 +30,24 @@ def resolve_target(target):
         obj = obj.fget
     while hasattr(obj, "__wrapped__"):
         obj = obj.__wrapped__
+    # decorators that do not set __wrapped__: the decorated function is a closure cell of the wrapper
+    name = qual.split(".")[-1]
+    for _ in range(6):
+        inner = None
+        if getattr(obj, "__name__", None) != name and getattr(obj, "__closure__", None):
+            for cell in obj.__closure__:
+                try:
+                    c = cell.cell_contents
+                except ValueError:
+                    continue
+                if callable(c) and hasattr(c, "__code__") or hasattr(c, "__wrapped__") or (callable(c) and getattr(c, "__closure__", None)):
+                    inner = c
+                    break
+        if inner is None:
+            break
+        obj = inner
+        while hasattr(obj, "__wrapped__"):
+            obj = obj.__wrapped__
     return obj, owner
 
 
